@@ -198,6 +198,20 @@ def run(chk):
             p = os.path.join(tdir, 'twin%d.ttf' % len(twins))
             open(p, 'wb').write(K.replace_table(plain_font, tag, tbl))
             twins.append((p, '%s as an LZ4 block with %s (%d -> %d bytes)' % (tag.decode(), what, len(data), len(blk))))
+    # the size a compressed table announces is part of "arbitrary compressed bytes": every small value (the loader clears the first four
+    # bytes of the output before decoding), one off the true size either way, the largest the field holds; unknown schemes
+    bad_hdr = []
+    for tag in (b'Silf', b'Glat'):
+        data = list(plain_tables[tag])
+        blk = bytes(L.encode_matches(data, L.fast_matches(data)))
+        sizes = [0, 1, 2, 3, 4, 5, 7, 8, len(data) - 1, len(data) + 1, (1 << 27) - 1] if chk.tier == 'thorough' else [rng.choice((0, 1)), rng.choice((2, 3)), rng.choice((4, 5, 7, 8)), len(data) + rng.choice((-1, 1)), (1 << 27) - 1]
+        for sz in sizes:
+            for scheme in ((1,) if sz != sizes[0] else (1, 2, 31)):
+                for body in ((blk,) if sz > 8 else (blk, bytes(rng.randrange(256) for _ in range(rng.choice((12, 40)))))):
+                    tbl = plain_tables[tag][:4] + struct.pack('>I', (scheme << 27) | sz) + body
+                    p = os.path.join(tdir, 'hdr%d.ttf' % len(bad_hdr))
+                    open(p, 'wb').write(K.replace_table(plain_font, tag, tbl))
+                    bad_hdr.append((p, '%s announcing scheme %d and %d bytes (the data has %d)' % (tag.decode(), scheme, sz, len(data))))
     _, lines, _ = S.seeds(vlib.REPO, 'Awami_test.ttf')
     ops = ['info'] + ['seg:%d:32:1:-:-:%s' % (j, ''.join('%08x' % c for c in t[:30])) for j, t in enumerate(rng.sample(lines, min(3, len(lines))))] + ['info']
     hapi = apiseq.build('asan')
@@ -205,6 +219,18 @@ def run(chk):
     for k, (p, what) in enumerate([(pf, 'plain')] + twins):
         for o, sm in ((0, 'cb'), (7, 'file')):
             tcases.append('t%d.%d%s api %s %d %s - %s' % (k, o, sm, p, o, sm, ' '.join(ops)))
+    hcases = []
+    for k, (p, what) in enumerate(bad_hdr):
+        o, sm = rng.choice(((0, 'cb'), (7, 'cb'), (0, 'file'), (6, 'cb')))
+        hcases.append('h%d.%d%s api %s %d %s - %s' % (k, o, sm, p, o, sm, ' '.join(ops[:2])))
+    _, hil, _ = vlib.run_pair(None, hapi, hcases, timeout=2400)
+    for c, l, (p, what) in zip(hcases, hil, bad_hdr):
+        if l is None or 'ABORT' in l.split()[1:3]:
+            chk.violation('c14:header:%s' % what[:80], 'a font with %s: loading it aborted (a write outside the announced size, or another fault): %s' % (what, (l or '')[:300]), dict(case=c, got=(l or '')[:600], header=what)); continue
+        classes.add(('header', what.split(' bytes')[0][-24:], 'face=ok' in l.split()))
+        if 'face=ok' in l.split() and ' scheme 1 ' in what and int(what.split(' and ')[1].split()[0]) < int(what.split('has ')[1].rstrip(')')):
+            chk.violation('c14:header-accepted:%s' % what[:80], 'a font with %s loads: the block decodes to more than the announced size' % what, dict(case=c, got=l[:600], header=what))
+    dist['compressed tables with a wrong announced size / scheme'] = len(bad_hdr)
     _, til, _ = vlib.run_pair(None, hapi, tcases, timeout=2400)
     ref = {}
     for c, l in zip(tcases, til):
